@@ -366,6 +366,9 @@ fn canonical(calls: &str) -> Option<Vec<u8>> {
     // rebuild a spec from the calls of an all-accepting run (supported grammar only)
     let mut s: Vec<u8> = Vec::new();
     let items: Vec<&str> = calls.split(';').filter(|x| !x.is_empty()).collect();
+    if items.iter().filter(|x| x.starts_with("kind:")).count() > 1 {
+        return None; // `^A^-n` sets the kind twice (Exclude, then Range): no text of the canonical grammar does that
+    }
     let mut i = 0;
     let mut pending_range: Option<&str> = None;
     let unhexf = |h: &str| -> Vec<u8> { unhex(h) };
